@@ -10,7 +10,7 @@
 EXTENDS XtData, Json, IOUtils, TLCExt
 
 Rec == ndJsonDeserialize(IOEnv.TRACE)
-AllDevs == {"yaml_plain_overflowing_number", "toml_nested_three_groups"}
+AllDevs == {"yaml_plain_overflowing_number", "toml_nested_three_groups", "json_toml_datetime_marker"}
 SplitNames(str) == {SubSeq(str, i, j) : i \in 1..Len(str), j \in 1..Len(str)}
 Devs == IF "XT_DEVS" \in DOMAIN IOEnv THEN AllDevs \cap SplitNames(IOEnv.XT_DEVS) ELSE {}
 \* C08 compares values, not the order of table entries (XT_ORDER=free)
@@ -53,7 +53,11 @@ T_Hop ==
          k == <<r.vid, r.to>>
      IN /\ r.res \in {"ok", "err"}
         \* C06, fixed point: translating xt's own output from B to B reproduces it byte for byte
-        /\ (r.res = "ok" /\ r.hop >= 2 /\ r.from = r.to) => r.outDigest = r.inDigest
+        /\ (r.res = "ok" /\ r.hop >= 2 /\ r.from = r.to) =>
+              \/ r.outDigest = r.inDigest
+              \* recorded deviation: TOML that xt wrote from a JSON slice spelling out the toml crate's private
+              \* date-time marker has that marker as a quoted key; read again, the table turns into a date-time
+              \/ (r.class = "json_toml_datetime_marker" /\ r.class \in Devs /\ PrintT(<<"DEVIATION", r.class, r.vid>>))
         /\ (r.hop >= 2 /\ r.from = r.to) => r.res = "ok"              \* .. and xt can always read what it wrote
         \* C06, round trip inside the common data model: every arrival of the value in format B agrees
         /\ (r.res = "ok" /\ r.canonical) =>
